@@ -68,9 +68,13 @@ func lexRecord(s string) (rec lexRec) {
 		}
 	}()
 	lex := &memefish.Lexer{File: &token.File{Buffer: s}}
+	var kept []token.Token
 	for {
 		err := lex.NextToken()
 		if err != nil {
+			for i := range kept {
+				rec.Toks = append(rec.Toks, projTok(&kept[i]))
+			}
 			rec.Err = true
 			if e, ok := err.(*memefish.Error); ok && e.Position != nil {
 				rec.Ep, rec.Ee = int(e.Position.Pos), int(e.Position.End)
@@ -79,15 +83,20 @@ func lexRecord(s string) (rec lexRec) {
 			}
 			return rec
 		}
-		rec.Toks = append(rec.Toks, projTok(&lex.Token))
+		// Tokens are kept the way a caller would keep them (a struct copy) and projected only
+		// after the whole loop, so that state shared between tokens shows up in the record.
+		kept = append(kept, lex.Token)
 		if lex.Token.Kind == token.TokenEOF {
 			break
 		}
-		if len(rec.Toks) > len(s)+2 { // no progress: more tokens than bytes
+		if len(kept) > len(s)+2 { // no progress: more tokens than bytes
 			rec.Pan = true
 			rec.PanV = "no progress"
 			return rec
 		}
+	}
+	for i := range kept {
+		rec.Toks = append(rec.Toks, projTok(&kept[i]))
 	}
 	for i := 0; i < 2; i++ {
 		if err := lex.NextToken(); err != nil {
